@@ -979,9 +979,9 @@ func (g *g) arithText(pieces *[]Piece) []string {
 		if i > 0 {
 			b.WriteString(g.pick("arith_gap", " ", "  ", "\t", " "))
 		}
-		switch g.ch.Intn(6, "arith_chunk") {
+		switch g.ch.Intn(7, "arith_chunk") {
 		default:
-			w := g.pick("arith_lit", "1", "x", "+", "1+2", "(1+2)*3", "x<<2", "y=5", "x>1", "a&&b", "-", "0x1F", "!x", "(x)", "x?1:2")
+			w := g.pick("arith_lit", "1", "x", "+", "1+2", "(1+2)*3", "x<<2", "y=5", "x>1", "a&&b", "-", "0x1F", "!x", "(x)", "x?1:2", "é", "日本+1")
 			b.WriteString(w)
 			ps = append(ps, skel.Lit(w))
 		case 4:
@@ -992,6 +992,11 @@ func (g *g) arithText(pieces *[]Piece) []string {
 				b.WriteString("+1")
 				ps = append(ps, skel.Lit("+1"))
 			}
+		case 6:
+			// a literal directly followed by an expansion
+			w := g.pick("arith_lit_glued", "2*", "é+", "日", "x-")
+			b.WriteString(w + "$x")
+			ps = append(ps, skel.Lit(w), skel.Param(false, "x", "", skel.Nil))
 		case 5:
 			b.WriteString("${y}*2")
 			ps = append(ps, skel.Param(true, "y", "", skel.Nil), skel.Lit("*2"))
